@@ -536,6 +536,9 @@ func (p *Prog) callMods(c *ssa.CallCommon, m *ModSet) {
 	if p.NoReturn[callee] {
 		return
 	}
+	if bigRecvKind(callee) == "Int" && bigMutators[callee.Name()] {
+		m.Comps[bigComp] = true // value model of *big.Int
+	}
 	m.add(p.modSetOf(callee))
 }
 
